@@ -45,7 +45,7 @@ def resolve_function(program, reg, c):
     return FuncInfo(c.target, node, mi.name, parent)
 
 
-def verify(targets=None, props=None, tier='quick', timeout=None, verbose=False, jobs=None, only_names=None):
+def verify(targets=None, props=None, tier='quick', timeout=None, verbose=False, jobs=None, only_names=None, ob_filter=None):
     t0 = time.time()
     reg = load_registry()
     program = Program()
@@ -79,6 +79,8 @@ def verify(targets=None, props=None, tier='quick', timeout=None, verbose=False, 
             ex2.trusted_used = ex.trusted_used
             ex2.assumptions_used = ex.assumptions_used
             obs = ex2.verify(fi, c)
+            if ob_filter is not None:
+                obs = [o for o in obs if ob_filter(o)]
             rep.obligations = obs
             rep.paths = ex2.paths_done
             rep.entry_pc = list(ex2.entry.pc) if ex2.entry is not None else []
